@@ -935,17 +935,20 @@ package xmpp
 // watchdog used while sending does the same for writes.
 //@ func setDeadline$1
 //@   cancellable[C04]
-//@   callsite (net.Conn).SetDeadline#1
-//@     assert[C04] arg0 == conn && arg1 == aLongTimeAgo
-// ... and the deadline stays there: I/O that starts after the cancellation
-// fails as well (the deadline is cleared by the stop function when negotiation
-// is over, not by the watchdog)
-//@   ghost fired bool = false
-//@   ghost last time.Time
+// the only thing the watchdog does to the connection is to put the deadline in
+// the past: it stays there, so I/O that starts after the cancellation fails as
+// well (the stop function below clears it when negotiation is over)
 //@   callsite (net.Conn).SetDeadline#*
-//@     after: fired = true
-//@     after: last = arg1
-//@   ensures[C04] fired ==> last == aLongTimeAgo
+//@     assert[C04] arg0 == conn && arg1 == aLongTimeAgo
+// the stop function ends the watchdog, waits for it and only then clears the
+// deadline, so a late watchdog cannot leave a finished session with a deadline
+// in the past
+//@ func setDeadline$2
+//@   ghost stopped bool = false
+//@   callsite type:CancelFunc#1
+//@     after: stopped = true
+//@   callsite (net.Conn).SetDeadline#1
+//@     assert[C04] stopped && arg0 == conn
 //@ func setWriteDeadline$1
 //@   cancellable[C04]
 //@   callsite (net.Conn).SetWriteDeadline#1
